@@ -87,13 +87,13 @@ Fixpoint cdims_ok (dims cdims : list N) : bool :=
   | _, _ => false
   end.
 
-(* rank 1..15: datatype, dataspace and chunked layout messages must fit the 255-byte header chunk
-   (4+20 + 4+8+8r + 4+11+4r <= 255) *)
+(* rank 1..17: datatype, dataspace and chunked layout messages must fit the 255-byte header chunk
+   (4+20 + 4+8+8r + 4+11+4r = 51 + 12r <= 255) *)
 Definition dims_ok_chunked (dims : list N) : bool :=
-  dims_ok dims && (length dims <=? 15)%nat.
+  dims_ok dims && (length dims <=? 17)%nat.
 
 (* what readChunkedData does with the chunks it has read (dataset_reader.go:296-306, no filter pipeline): every chunk is
-   copied into the zero-initialised array at key / chunk extents; the keys are the byte... element offsets of the index *)
+   copied into the zero-initialised array at key / chunk extents; the keys are the element offsets stored in the index *)
 Fixpoint scatter_chunks (dims cdims : list N) (esz : N) (cs : list (list N * bytes)) (raw : bytes) : cres bytes :=
   match cs with
   | [] => COk raw
